@@ -265,7 +265,8 @@ def kani_harness(h, timeout):
         st = 'tool'
     m = re.search(r'\*\* (\d+) of (\d+) failed', out)
     checks = (int(m.group(1)), int(m.group(2))) if m else None
-    cov = re.findall(r'cover.*?(SATISFIED|UNSATISFIABLE|UNREACHABLE)', out)
+    mc = re.search(r'\*\* (\d+) of (\d+) cover properties satisfied', out)
+    cov = ['SATISFIED'] * int(mc.group(1)) + ['UNSATISFIABLE'] * (int(mc.group(2)) - int(mc.group(1))) if mc else []
     return {'harness': h, 'status': st, 'wall': time.time() - t0, 'out': out[-6000:], 'checks': checks,
             'cmd': ' '.join(cmd), 'covers': cov}
 
